@@ -40,8 +40,34 @@ package geojson
 
 // the child index (external package github.com/tidwall/rtree, not verified): abstract predicate "the tree holds exactly the
 // non-empty children, each with its own rectangle"; established by parseInitRectIndex through A-RTREE, consumed by the tree path of Search
-//@ spec func TreeHolds(c *collection) bool
+// model of the external tree: a finite sequence of items (value, box); t2c / c2t: which child an item is / which item a non-empty child is
+//@ spec func treeN(t ref) int
+//@ spec func treeVal(t ref, i int) Object
+//@ spec func treeBox(t ref, i int) geometry.Rect
+//@ spec func t2c(c *collection, t int) int
+//@ spec func c2t(c *collection, j int) int
+//@ spec func TreeHolds(c *collection) bool opaque {
+//@     (forall t int :: (0 <= t && t < treeN(c.tree)) ==> (0 <= t2c(c,t) && t2c(c,t) < collN(c) && !oEmpty(collChild(c, t2c(c,t))) && treeVal(c.tree,t) == collChild(c, t2c(c,t)) && treeBox(c.tree,t) == oRect(collChild(c, t2c(c,t))) && c2t(c, t2c(c,t)) == t)) &&
+//@     (forall j int :: (0 <= j && j < collN(c) && !oEmpty(collChild(c,j))) ==> (0 <= c2t(c,j) && c2t(c,j) < treeN(c.tree) && t2c(c, c2t(c,j)) == j)) }
 //@ spec func TreeInv(c *collection) bool { c.tree != nil ==> TreeHolds(c) }
+//@ lemma kidIsObject(o Object)
+//@   props C10 C08
+//@   requires KidInv(o)
+//@   ensures o != nil && (isPointK(o) || isSimplePointK(o) || isLineStringK(o) || isPolygonK(o) || isRectK(o) || isFeatureK(o) || isCircleK(o) || isCollObjK(o))
+//@ lemma treeItem(c *collection, t int)
+//@   props C10 C08
+//@   reveal TreeHolds
+//@   requires TreeHolds(c) && 0 <= t && t < treeN(c.tree)
+//@   ensures 0 <= t2c(c,t) && t2c(c,t) < collN(c) && !oEmpty(collChild(c, t2c(c,t))) && treeVal(c.tree,t) == collChild(c, t2c(c,t)) && treeBox(c.tree,t) == oRect(collChild(c, t2c(c,t))) && c2t(c, t2c(c,t)) == t
+//@ lemma treeChild(c *collection, j int)
+//@   props C10 C08
+//@   reveal TreeHolds
+//@   use treeItem(c, c2t(c,j))
+//@   requires TreeHolds(c) && 0 <= j && j < collN(c) && !oEmpty(collChild(c,j))
+//@   ensures 0 <= c2t(c,j) && c2t(c,j) < treeN(c.tree) && t2c(c, c2t(c,j)) == j && treeVal(c.tree, c2t(c,j)) == collChild(c,j) && treeBox(c.tree, c2t(c,j)) == oRect(collChild(c,j))
+// A-RTREE (search side): Search(min, max, iter) reports exactly the items whose box meets [min,max], each once, until iter returns false
+//@ extern rtree.RTree.Search
+//@   iter iter(idx) dom 0 <= idx && idx < treeN(self) ; match geometry.rectsMeet(treeBox(self, idx), geometry.mkRect(geometry.mkPoint(min[0], min[1]), geometry.mkPoint(max[0], max[1]))) ; args 0, 0, treeVal(self, idx)
 
 
 // ---------------------------------------------------------------- the parts of an object (ForEach's enumeration, per kind)
@@ -133,7 +159,15 @@ package geojson
 //@   props C10 C08
 //@   arith order
 //@   requires CollInv(g)
-//@   skip collection.go:39 A-RTREE: the tree path hands a forwarding literal to the external rtree.RTree.Search; its content is not modelled (TreeHolds is abstract)
+//@   call 0 use treeItem(g, $idx)
+//@   call 0 use kidIsObject(collChild(g, t2c(g, $idx)))
+//@   call 0 use forall j int :: treeChild(g, j)
+//@   call 0 use forall j int :: kidInv(g, j)
+//@   call 0 after use forall j int :: treeChild(g, j)
+//@   call 0 iterinv Img: forall j int :: oseen[j] == (old(oseen)[j] || (0 <= j && j < collN(g) && !oEmpty(collChild(g,j)) && seen[c2t(g,j)]))
+//@   call 0 iterinv Run: !ostopped
+//@   call 0 iterstop ostopped && (forall j int :: (oseen[j] ==> (old(oseen)[j] || (0 <= j && j < collN(g) && childMatch(g, j, rect)))) && (old(oseen)[j] ==> oseen[j]))
+//@   call 1 at t2c(g, $idx)
 //@   iter iter(idx) dom 0 <= idx && idx < collN(g) ; match childMatch(g, idx, rect) ; args collChild(g, idx) ; at $i
 //@   loop 0 invariant !stopped
 //@   loop 0 invariant forall j int :: seen[j] == (old(seen)[j] || (0 <= j && j < $i && childMatch(g, j, rect)))
@@ -754,10 +788,13 @@ package geojson
 // own rectangle into a fresh tree (and nothing else: collection.go:289-300 is the only place a tree is built) the tree holds exactly those
 //@ spec func treeHasItem(t ref, v Object, box geometry.Rect) bool
 //@ extern rtree.RTree.Insert
+//@   modifies rtree.RTree.height, rtree.RTree.root, rtree.RTree.count, rtree.RTree.reinsert
 //@   ensures treeHasItem(self, value, geometry.mkRect(geometry.mkPoint(min[0], min[1]), geometry.mkPoint(max[0], max[1])))
+//@   ensures Count: self.count == old(self.count) + 1 && (forall t *rtree.RTree :: t != self ==> t.count == old(t.count))
 //@ spec func allInserted(c *collection, k int) bool { forall j int :: (0 <= j && j < k && !oEmpty(collChild(c,j))) ==> treeHasItem(c.tree, collChild(c,j), oRect(collChild(c,j))) }
+// (the item count equals the number of non-empty children: nothing else was inserted)
 //@ axiom ARTreeBuilt(c *collection)
-//@   requires c.tree != nil && allInserted(c, collN(c))
+//@   requires c.tree != nil && allInserted(c, collN(c)) && c.tree.count == countNonEmptyUpTo(c, collN(c))
 //@   ensures TreeHolds(c)
 
 //@ func unionRects
@@ -797,6 +834,7 @@ package geojson
 //@   loop 1 invariant Frame: (forall c *collection :: c != g ==> (c.pempty == old(c.pempty) && c.prect == old(c.prect) && c.tree == old(c.tree))) && g.tree != nil
 //@   loop 1 invariant State: g.pempty == allEmptyUpTo(g, collN(g)) && g.prect == unionUpTo(g, collN(g)) && count == countNonEmptyUpTo(g, collN(g))
 //@   loop 1 invariant Ins: allInserted(g, $i)
+//@   loop 1 invariant Cnt: g.tree.count == countNonEmptyUpTo(g, $i)
 //@   loop 1 begin use AFrameKid(collChild(g, $i), g)
 //@   loop 1 assert collChild(g, $i) == child && KidInv(child)
 //@   ret use forall j int :: AFrameKid(collChild(g, j), g)
